@@ -50,13 +50,13 @@ REAL_VS_STUB = {
                                 'warnings.showwarning', 'all user callbacks', 'GC timing'],
 }
 EXPECTED_PROBES = ('cb:is_leaf', 'cb:flatten_func', 'cb:unflatten_func', 'cb:map_fn', 'cb:key.__hash__', 'cb:key.__lt__',
-                   'cb:meta.__ne__', 'cb:meta.__repr__', 'cb:showwarning', 'cb:meta.__getattr__', 't8:registration-failed-in-hook',
+                   'cb:meta.__ne__', 'cb:meta.__repr__', 'cb:showwarning', 'cb:meta.__getattr__', 't8:registration-failed-in-hook', 't9:completed', 't9:refused', 't3:pairing-op',
                    'lock:registry:acquire', 'lock:registry:contended', 'switch-inside-callback')
 # 'callback-entered-with-engine-lock-held' is reported as a counter; on a correct tree it stays 0 (it was 30 569 per
 # quick run before fix 414fcff)
 
 V = _C._verif if hasattr(_C, '_verif') else None
-TEMPLATES = ('T1', 'T2', 'T3', 'T4', 'T5', 'T6', 'T7', 'T8')
+TEMPLATES = ('T1', 'T2', 'T3', 'T4', 'T5', 'T6', 'T7', 'T8', 'T9')
 PKG_PREFIX = os.path.dirname(optree.__file__) + os.sep
 REGMOD = optree.registry
 
@@ -199,7 +199,7 @@ def run_job(job, io):
     REGMOD.__dict__['__REGISTRY_LOCK'] = old_lock
 
     for lab, n in sim.probes.items():
-        if lab.startswith(('cb:', 'lock:')) or lab in ('callback-entered-with-engine-lock-held',):
+        if lab.startswith(('cb:', 'lock:', 't3:', 't8:', 't9:')) or lab in ('callback-entered-with-engine-lock-held',):
             probes[lab] += n
     py_lines = sum(n for lab, n in sim.probes.items() if lab.startswith('py:'))
     probes['py-line-yield-points'] += py_lines
@@ -453,6 +453,16 @@ def make_instance(cls):
 
 
 # -------------------------------------------------------------------------------------------------- T3
+class PairBox:
+    """What the mapped function of a pairing operation returns: opaque to the harness's tree walkers (an unregistered custom
+    instance is a leaf and arrives here whole; its interior is not a pairing)."""
+    __slots__ = ('x', 'y')
+
+    def __init__(self, x, y):
+        self.x = x
+        self.y = y
+
+
 def tpl_T3(sim, tape, viol, keys, desc, cb, job):
     """flatten || unregister/re-register of a type that occurs in the tree: old-or-new per node."""
     cls = U.CA
@@ -463,8 +473,12 @@ def tpl_T3(sim, tape, viol, keys, desc, cb, job):
     others.register(U.CB, ns, style=tape.draw(4, 'style-b'))
     ctx = gen.Ctx(kinds=('list', 'tuple', 'dict', 'custom', 'odict', 'nt'), custom_classes=(U.CA, U.CA, U.CB))
     tree = gen.gen_tree(tape, 6 + tape.draw(20, 'budget'), ctx)
-    tree = [tree, U.CA([ctx.leaf(), U.CA([ctx.leaf()], 1)], 2), {'k': U.CA([], 0)}]
+    tree = [tree, U.CA([ctx.leaf(), U.CA([ctx.leaf()], 1)], 2), {'k': U.CA([], 0)}, U.CA([ctx.leaf(), ctx.leaf(), ctx.leaf()], 3), (U.CA([ctx.leaf(), ctx.leaf()], 4),)]
     n_changes = 1 + tape.draw(3, 'n-changes')
+    reverse_some = bool(tape.draw(2, 't3-reverse'))
+    same_meta = tape.draw(3, 't3-same-meta') == 2
+    # a second operand for the operations that pair two trees: same shape, leaf i is paired with leaf i + 100000
+    tree_b = optree.tree_map(lambda x: U.Leaf(x.i + 100000), tree, namespace=ns)
     timeline = [(-1, -1, 1)]  # (earliest step, latest step, rid or None) — state valid from here on
     current = {'f': f_old}
     regs = {1: f_old}
@@ -476,19 +490,27 @@ def tpl_T3(sim, tape, viol, keys, desc, cb, job):
             optree.unregister_pytree_node(cls, namespace=ns)
             timeline.append((s0, sim.steps, None))
             current['f'] = None
-            f = U.Funcs(cls, rid, (rid + f_old.style) % 4)
+            if same_meta:
+                # the replacement produces EQUAL metadata (same registration id burnt in, same style): only the order of the
+                # children tells old from new, so the engine's metadata comparison cannot notice a mix-up by itself
+                f = U.Funcs(cls, 1, f_old.style)
+                f.reverse = bool(rid % 2 == 0)
+            else:
+                f = U.Funcs(cls, rid, (rid + f_old.style) % 4)
+                f.reverse = bool(rid % 2 == 0) if reverse_some else False  # every other registration lists the children in reverse
             regs[rid] = f
             s0 = sim.steps
             optree.register_pytree_node(cls, f.flatten, f.unflatten, namespace=ns)
-            timeline.append((s0, sim.steps, rid))
+            timeline.append((s0, sim.steps, 1 if same_meta else rid))
             current['f'] = f
             rid += 1
 
     n_fl = 1 + tape.draw(2, 'n-flatteners')
     windows = []
+    pairs = []
 
     def flattener(i):
-        how = tape.draw(3, 'fl-how')
+        how = tape.draw(5, 'fl-how')
         nil = bool(tape.draw(2, 'fl-nil'))
 
         def pred(x):
@@ -503,12 +525,25 @@ def tpl_T3(sim, tape, viol, keys, desc, cb, job):
                         leaves, spec = optree.tree_flatten(tree, is_leaf=pred, namespace=ns, none_is_leaf=nil)
                     elif how == 1:
                         _, leaves, spec = optree.tree_flatten_with_path(tree, is_leaf=pred, namespace=ns, none_is_leaf=nil)
-                    else:
+                    elif how == 2:
                         leaves = list(optree.tree_iter(tree, is_leaf=pred, namespace=ns, none_is_leaf=nil))
                         spec = None
+                    else:
+                        # operations that flatten one tree and then push the other(s) through flatten_up_to: with the registry
+                        # changing in between they may REFUSE (the engine notices that a node's registration was replaced), but
+                        # they must never pair a leaf with anything but its partner
+                        if how == 3:
+                            res = optree.tree_map(PairBox, tree, tree_b, namespace=ns, none_is_leaf=nil)
+                        else:
+                            res = optree.tree_broadcast_map(PairBox, tree, tree_b, namespace=ns, none_is_leaf=nil)
+                        pairs.append((a, sim.steps, how, res, None))
+                        continue
                     windows.append((a, sim.steps, how, leaves, spec, None))
                 except BaseException as e:  # noqa: BLE001
-                    windows.append((a, sim.steps, how, None, None, e))
+                    if how >= 3:
+                        pairs.append((a, sim.steps, how, None, e))
+                    else:
+                        windows.append((a, sim.steps, how, None, None, e))
         return body
 
     set_policy(sim, tape, job)
@@ -543,6 +578,23 @@ def tpl_T3(sim, tape, viol, keys, desc, cb, job):
                             viol('torn', 'T3:node', 'node flattened with registration %r is rebuilt by registration %r (torn registration)' % (meta, uf))
                         if meta not in allowed:
                             viol('torn', 'T3:node', 'node attributed to registration %r which was not current at any instant of the flatten window [%d,%d]; allowed %r' % (meta, a, b, sorted(x for x in allowed if x)))
+        for (a, b, how, res, err) in pairs:
+            sim.probes['t3:pairing-op'] += 1
+            if err is not None:
+                if isinstance(err, EngineWouldBlock):
+                    continue
+                if isinstance(err, ValueError) and not (None not in allowed_states(timeline, a, b) and len(allowed_states(timeline, a, b)) == 1):
+                    sim.probes['t3:pairing-op-refused'] += 1  # the registry changed inside the window: refusing is a sequentially explainable outcome
+                    continue
+                viol('not-sequential', 'T3:map', 'a pairing operation overlapping a registry change raised %s: %s' % (type(err).__name__, err))
+                continue
+            for box in walk(res):
+                if isinstance(box, PairBox) and isinstance(box.x, U.Leaf) and isinstance(box.y, U.Leaf):
+                    pr = (box.x, box.y)
+                    if pr[1].i != pr[0].i + 100000:
+                        viol('torn', 'T3:map', 'tree_map / tree_broadcast_map overlapping a re-registration paired leaf L%d with L%d (its partner is L%d): '
+                             'one operand was flattened by the old registration, the other by the new one' % (pr[0].i, pr[1].i, pr[0].i + 100000))
+                        break
         # quiescent: the final registration serves
         f = current['f']
         c0 = f.flatten_calls
@@ -554,6 +606,87 @@ def tpl_T3(sim, tape, viol, keys, desc, cb, job):
         if current['f'] is not None:
             optree.unregister_pytree_node(cls, namespace=ns)
         others.unregister_all()
+    return {'cleanup': cleanup}
+
+
+# -------------------------------------------------------------------------------------------------- T9
+def tpl_T9(sim, tape, viol, keys, desc, cb, job):
+    """ONE replacement of a registration by one with the same metadata and the opposite child order || one operation that
+    flattens a first operand and pushes a second one through flatten_up_to (tree_map with two trees, tree_broadcast_map,
+    tree_transpose_map, treespec.flatten_up_to).  Small on purpose: a single-switch sweep covers every yield point of the
+    operation.  Outcomes explainable sequentially: the pairing of leaf i with leaf i + 100000 everywhere, or a refusal."""
+    cls = U.CA
+    ns = 'ns'
+    style = tape.draw(4, 'style')
+    f_old = U.Funcs(cls, 1, style)
+    optree.register_pytree_node(cls, f_old.flatten, f_old.unflatten, namespace=ns)
+    current = {'f': f_old}
+    n_nodes = 2 + tape.draw(2, 't9-nodes')
+    k = [0]
+
+    def leaf():
+        k[0] += 1
+        return U.Leaf(k[0])
+
+    tree = [U.CA([leaf() for _ in range(2 + tape.draw(2, 't9-arity'))], j) for j in range(n_nodes)]
+    if tape.draw(2, 't9-wrap'):
+        tree = {'b': tree[0], 'a': tuple(tree[1:])}
+    tree_b = optree.tree_map(lambda x: U.Leaf(x.i + 100000), tree, namespace=ns)
+    how = tape.draw(4, 't9-how')
+    results = []
+
+    def registrar(task):
+        optree.unregister_pytree_node(cls, namespace=ns)
+        current['f'] = None
+        f = U.Funcs(cls, 1, style)
+        f.reverse = True
+        optree.register_pytree_node(cls, f.flatten, f.unflatten, namespace=ns)
+        current['f'] = f
+
+    def operation(task):
+        try:
+            if how == 0:
+                res = optree.tree_map(PairBox, tree, tree_b, namespace=ns)
+            elif how == 1:
+                res = optree.tree_broadcast_map(PairBox, tree, tree_b, namespace=ns)
+            elif how == 2:
+                spec = optree.tree_structure(tree, namespace=ns)
+                sim.point('t9:between')
+                res = [PairBox(x, y) for x, y in zip(optree.tree_leaves(tree, namespace=ns), spec.flatten_up_to(tree_b))]
+            else:
+                res = optree.tree_map_(lambda x, y: results.append(('pair', PairBox(x, y))), tree, tree_b, namespace=ns)
+                res = [p for tag, p in results if tag == 'pair']
+            results.append(('done', res))
+        except BaseException as e:  # noqa: BLE001
+            results.append(('exc', e))
+
+    set_policy(sim, tape, job)
+    sim.spawn('registrar', registrar)
+    sim.spawn('operation', operation)
+    desc.update({'tree': gen.describe(tree)[:200], 'how': how})
+    U.HOOK = cb
+    sim.run()
+    U.HOOK = None
+    if sim.deadlock is None and not sim.engine_blocks:
+        for tag, res in results:
+            if tag == 'exc':
+                if isinstance(res, EngineWouldBlock):
+                    continue
+                if isinstance(res, (ValueError, TypeError)):
+                    sim.probes['t9:refused'] += 1
+                    continue
+                viol('not-sequential', 'T9:op', 'a pairing operation overlapping a re-registration raised %s: %s' % (type(res).__name__, res))
+            elif tag == 'done':
+                sim.probes['t9:completed'] += 1
+                for box in walk(res):
+                    if isinstance(box, PairBox) and isinstance(box.x, U.Leaf) and isinstance(box.y, U.Leaf) and box.y.i != box.x.i + 100000:
+                        viol('torn', 'T9:pairing', 'an operation overlapping the replacement of a registration (same metadata, opposite child order) paired '
+                             'leaf L%d with L%d (its partner is L%d): the operands were flattened by different registrations' % (box.x.i, box.y.i, box.x.i + 100000))
+                        break
+
+    def cleanup():
+        if current['f'] is not None:
+            optree.unregister_pytree_node(cls, namespace=ns)
     return {'cleanup': cleanup}
 
 
